@@ -115,9 +115,9 @@ theorem Delay.history_inv (C : FxChain ℝ φ) (Q : φ → ℕ → Prop)
     (hlen : ∀ dt info s xs, (C.process s xs dt info).2.length = xs.length)
     (ns : ℕ) (evs : List RateEvent) :
     ∀ (st st' : Delay ℝ φ × ℕ),
-      (st.1.buffer.length = Delay.frames ℝ ns st.2 ∧ st.1.delayNs = ns ∧ Q st.1.fx st.2) →
+      (st.1.buffer.length = Delay.frames ns st.2 ∧ st.1.delayNs = ns ∧ Q st.1.fx st.2) →
       evs.foldlM (Delay.applyEvent C) st = some st' →
-      (st'.1.buffer.length = Delay.frames ℝ ns st'.2 ∧ st'.1.delayNs = ns ∧ Q st'.1.fx st'.2) := by
+      (st'.1.buffer.length = Delay.frames ns st'.2 ∧ st'.1.delayNs = ns ∧ Q st'.1.fx st'.2) := by
   induction evs with
   | nil => intro st st' h0 h; simp only [List.foldlM_nil] at h; cases h; exact h0
   | cons e rest ih =>
